@@ -4,13 +4,13 @@
 usage: tools/par_matrix.py [-j N] [--tier quick] [--out results.json] JOB...
    JOB = <patch-file>:<Cxx>[,<Cyy>...]        (the word ALL = every claimed check; patch '-' = unchanged tree)
 
-Each worker owns /tmp/vclone/w<i>/{repo,verif}: `repo` is a detached git worktree of /repo's HEAD with the patch applied,
+Each worker owns /tmp/vclone/<pid>/w<i>/{repo,verif}: `repo` is a detached git worktree of /repo's HEAD with the patch applied,
 `verif` is a copy of /verif's working tree whose three harness manifests and MIR dump point at that `repo`.
 Nothing is written to /verif (evidence files of the clones are thrown away); the clones are removed at the end.
 This is tooling for the seeded / benign matrices, not a registered check: the registered commands always use /repo itself."""
 import json, os, re, shutil, subprocess, sys, threading, queue, time
 
-ROOT = '/tmp/vclone'
+ROOT = '/tmp/vclone/%d' % os.getpid()    # one root per invocation: several matrices may run at the same time
 VERIF = os.path.dirname(os.path.dirname(os.path.abspath(__file__)))
 ALL = 'C01 C02 C03 C04 C05 C06 C07 C08 C09 C10 C11 C12 C13 C14 C15 C16 C17 C19 C20'.split()
 
@@ -97,6 +97,7 @@ def main():
         t.start()
     for t in ths:
         t.join()
+    shutil.rmtree(ROOT, ignore_errors=True)
     sh('git -C /repo worktree prune')
     if out:
         json.dump(results, open(out, 'w'), indent=1)
